@@ -148,12 +148,20 @@ fn classify_dropped(input: &str, tree_text: &str, root: &apollo_parser::SyntaxNo
 }
 
 fn check_input(space: &str, s: &str, kf_open: bool, st: &mut Stats) {
+    check_input_rl(space, s, None, kf_open, st)
+}
+
+/// `rl`: recursion limit (None = the default). The token limit is never set.
+fn check_input_rl(space: &str, s: &str, rl: Option<usize>, kf_open: bool, st: &mut Stats) {
     st.states += 1;
     st.transitions += 1;
     let fail = |st: &mut Stats, sig: &str, detail: String| {
-        st.fail_simple(sig, json!({ "space": space, "input": s }), detail, s.len() as u64);
+        st.fail_simple(sig, json!({ "space": space, "input": s, "recursion_limit": rl }), detail, s.len() as u64);
     };
-    let tree = match vcore::catch(|| Parser::new(s).parse()) {
+    let tree = match vcore::catch(|| match rl {
+        None => Parser::new(s).parse(),
+        Some(r) => Parser::new(s).recursion_limit(r).parse(),
+    }) {
         Ok(t) => t,
         Err(p) => {
             fail(st, "panic", format!("Parser::parse panicked: {p}"));
@@ -194,17 +202,21 @@ fn check_input(space: &str, s: &str, kf_open: bool, st: &mut Stats) {
     if nerr > 0 && !s.is_empty() {
         st.nontrivial += 1;
     }
-    st.outcome(match (nerr > 0, has_error_token) {
-        (false, _) => "lossless, no errors",
-        (true, false) => "lossless, errors reported, no ERROR token in the tree",
-        (true, true) => "lossless, errors reported, ERROR tokens in the tree",
+    let limit_hit = tree.errors().any(|e| e.is_limit());
+    st.outcome(match (nerr > 0, has_error_token, limit_hit) {
+        (false, _, _) => "lossless, no errors",
+        (true, false, false) => "lossless, errors reported, no ERROR token in the tree",
+        (true, true, false) => "lossless, errors reported, ERROR tokens in the tree",
+        (true, false, true) => "lossless, recursion limit hit, no ERROR token in the tree",
+        (true, true, true) => "lossless, recursion limit hit, ERROR tokens in the tree",
     });
 }
 
 fn run_case(case: &Value, kf_open: bool, st: &mut Stats) {
-    check_input(
+    check_input_rl(
         case["space"].as_str().unwrap_or("replay"),
         case["input"].as_str().unwrap_or(""),
+        case["recursion_limit"].as_u64().map(|r| r as usize),
         kf_open,
         st,
     );
@@ -240,6 +252,27 @@ fn main() {
     println!("space strings max_len {max_len} inputs {total}");
     chk.absorb(stats);
     bounds.insert("strings".into(), json!({"alphabet": SIGMA_LEX, "max_len": max_len, "inputs": total}));
+
+    // (a2) strings over Σlex plus characters that are white space for Unicode but not for GraphQL
+    // (they are lexer-error fragments and must stay in the tree like any other)
+    let ws_alpha: Vec<&str> = SIGMA_LEX.iter().copied().chain(["\u{a0}", "\u{c}", "\u{2028}"]).collect();
+    let max_len = tier.pick(4, 5);
+    let k = ws_alpha.len() as u64;
+    let total = en::count_upto(k, max_len);
+    let stats = vcore::par_sweep(total, 16384, |i, st| {
+        let mut seq = Vec::new();
+        en::nth_upto(k, i, &mut seq);
+        // only strings that use at least one of the added characters (the rest is space (a))
+        if !seq.iter().any(|&x| x >= SIGMA_LEX.len()) {
+            return;
+        }
+        let mut s = String::new();
+        en::render(&ws_alpha, &seq, &mut s);
+        check_input("strings-unicode-space", &s, kf_open, st);
+    });
+    println!("space strings-unicode-space max_len {max_len} inputs {total} (those with an added character)");
+    chk.absorb(stats);
+    bounds.insert("strings_unicode_space".into(), json!({"alphabet": ws_alpha, "max_len": max_len, "note": "strings containing at least one of U+00A0, U+000C, U+2028"}));
 
     // (b) token sequences over T ∪ {é}, joined with one space
     let max_len = tier.pick(3, 5);
@@ -301,6 +334,54 @@ fn main() {
         });
         chk.absorb(stats);
     }
+    // (r) small recursion limits (the statement only fixes the token limit): token sequences,
+    // the nesting family, and single-token edits of nested documents, each x r in 0..=2
+    let rl_len = tier.pick(3, 4);
+    let k = TX.len() as u64;
+    let total = en::count_upto(k, rl_len);
+    let stats = vcore::par_sweep(total, 8192, |i, st| {
+        let mut seq = Vec::new();
+        let mut s = String::new();
+        en::nth_upto(k, i, &mut seq);
+        en::render_sep(TX, &seq, " ", &mut s);
+        for r in 0..=2 {
+            check_input_rl("token-sequences-rl", &s, Some(r), kf_open, st);
+        }
+    });
+    chk.absorb(stats);
+    let (vd, sd, td, mix) = tier.pick((3, 4, 4, 2), (4, 5, 5, 2));
+    let family: Vec<String> = refmodel::nest::family(vd, sd, td, mix).into_iter().map(|(_, d)| d.print()).collect();
+    let stats = vcore::par_items(&family, |d, st| {
+        for r in 0..=3 {
+            check_input_rl("nesting-family-rl", d, Some(r), kf_open, st);
+            // and with garbage behind it (unexpected tokens after the limit was hit)
+            check_input_rl("nesting-family-rl", &format!("{d} }} ] é fragment F on T {{ x }}"), Some(r), kf_open, st);
+        }
+    });
+    chk.absorb(stats);
+    let nested: Vec<Vec<&str>> = [
+        "{ a { b { c { d } } } } fragment F on T { x }",
+        "query Q ( $v : [ [ Int ] ] = [ [ 1 ] ] ) { a ( x : { y : [ 1 , [ 2 ] ] } ) { b } }",
+        "type T { f ( x : [ [ Int ! ] ] = [ [ 1 ] ] ) : [ [ T ] ! ] @d ( a : { b : [ { c : 1 } ] } ) }",
+    ]
+    .iter()
+    .map(|d| parsing::tokens_of(d))
+    .collect();
+    let stats = vcore::par_items(&nested, |base, st| {
+        let mut edits = parsing::single_edits(base, TX);
+        edits.push(parsing::join(base));
+        for e in &edits {
+            for r in 0..=3 {
+                check_input_rl("edit-1-rl", e, Some(r), kf_open, st);
+            }
+        }
+        st.count("edit-1 mutants under small recursion limits", edits.len() as u64);
+    });
+    chk.absorb(stats);
+    println!("space recursion-limits: token sequences <= {rl_len} x r 0..=2, {} family documents x r 0..=3 (plain and with trailing garbage), edits of {} nested documents x r 0..=3", family.len(), nested.len());
+    bounds.insert("recursion_limits".into(), json!({"token_sequences_max_len": rl_len, "token_sequence_limits": [0, 1, 2],
+        "family_documents": family.len(), "family_limits": [0, 1, 2, 3], "nested_edit_documents": nested.len()}));
+
     bounds.insert(
         "edits".into(),
         json!({"documents": docs.len(), "edit_alphabet": TX, "k": tier.pick(1, 2), "two_edit_documents": edit2_docs,
@@ -310,11 +391,11 @@ fn main() {
     chk.bounds = Value::Object(bounds);
     chk.rule = "every string over Σlex up to max_len; every token sequence over T∪{é} up to max_len (joined with one space); \
                 every distinct single-token edit of each production document (thorough: every second edit of every first edit \
-                of the 8 smallest documents; distinct per first edit). non-trivial = non-empty inputs on which the parser reported ≥1 error"
+                of the 8 smallest documents; distinct per first edit); every string that uses U+00A0 / U+000C / U+2028; token sequences, nesting-family documents and edits of nested documents under recursion limits 0..=3. non-trivial = non-empty inputs on which the parser reported ≥1 error"
         .into();
     chk.assumptions = vec![
         "rowan's SyntaxNode::to_string / text_range report what the tree holds (trusted base)".into(),
-        "the token limit is off and the recursion limit is the default (500), never reached in these spaces".into(),
+        "the token limit is never set (the statement's precondition); the recursion limit is the default except in the recursion-limits spaces, where it is 0..=3".into(),
     ];
     chk.finish(&|case| {
         let mut st = Stats::default();
